@@ -12,8 +12,10 @@ require (
 )
 
 require (
+	github.com/google/go-configfs-tsm v0.3.2 // indirect
 	go.uber.org/multierr v1.11.0 // indirect
 	golang.org/x/crypto v0.17.0 // indirect
+	golang.org/x/sys v0.19.0 // indirect
 )
 
 replace github.com/google/go-tdx-guest => /repo
